@@ -81,6 +81,13 @@ def _lower_tuple_match(s: ast.Match, counter):
                 if isinstance(q, ast.MatchAs) and q.pattern is None and q.name is not None:
                     binds.append(ast.Assign(targets=[ast.Name(id=q.name, ctx=ast.Store())], value=_load(nm)))
                     continue
+                if isinstance(q, ast.MatchSequence):
+                    sq = _sequence_test(q, nm)               # an element that is itself a fixed-length sequence: case 2, (1,):
+                    if sq is None:
+                        return None
+                    tests.append(sq[0])
+                    binds.extend(sq[1])
+                    continue
                 tq = _pattern_test(q, nm)
                 if tq is None:
                     return None
